@@ -641,6 +641,99 @@ func run(e *core.Env) {
 			e.Probe("task_switches")
 		}
 	}
+
+	// ---- first contact handled by two workers at once (a quarter of the runs) ----
+	// R knows router X (stored record) but holds no session for it - first contact, or the
+	// session cleaner dropped the idle one. A signed frame of X and a copy of it (it reached R
+	// over two links) are handled by two of R's frame workers: each asks the state for the
+	// session of X and unseals. Under the cooperative scheduler the tape picks the running task
+	// at every lock operation of package state. However the two interleave, the frame is
+	// accepted at most once, and a later copy is refused.
+	if tp.Chance(1, 4) {
+		xID := ident.Get(ident.Routable, 2)
+		xN, err := node.New("X", xID, node.BaseStore(xID), node.Options{})
+		if err != nil {
+			e.Infra("node: %v", err)
+		}
+		if err := xN.State.AddRouter(&rID.PublicAddress); err != nil {
+			e.Infra("add router: %v", err)
+		}
+		if err := rN.State.AddRouter(&xID.PublicAddress); err != nil {
+			e.Infra("add router: %v", err)
+		}
+		xSess := xN.State.GetSession(rID.IP)
+		if xSess == nil {
+			e.Infra("no session")
+		}
+		sealX := func() sealed {
+			f, err := xN.Inst.Builder.NewFrameV1(xID.IP, rID.IP, frame.RouterPing, nil, tp.Bytes(1+tp.Intn(40)), nil)
+			if err != nil {
+				e.Infra("new frame: %v", err)
+			}
+			if err := f.Seal(xSess); err != nil {
+				e.Infra("seal (first contact): %v", err)
+			}
+			s := sealed{seq: uint64(f.SequenceTime().UnixMilli()), data: copyFrame(f)}
+			f.ReturnToPool()
+			return s
+		}
+		handle := func(data []byte) error {
+			sess := rN.State.GetSession(xID.IP)
+			if sess == nil {
+				return fmt.Errorf("no session")
+			}
+			ps := rB.GetPooledSlice(len(data) + peering.FrameOffset + peering.FrameOverhead)
+			copy(ps[peering.FrameOffset:], data)
+			f, err := rB.ParseFrame(ps[peering.FrameOffset:peering.FrameOffset+len(data)], ps, peering.FrameOffset)
+			if err != nil {
+				rB.ReturnPooledSlice(ps)
+				return fmt.Errorf("parse: %w", err)
+			}
+			defer f.ReturnToPool()
+			return f.Unseal(sess)
+		}
+		fr := sealX()
+		nTasks := 2 + tp.Intn(2)
+		errs := make([]error, nTasks)
+		var tasks []func()
+		for i := 0; i < nTasks; i++ {
+			tasks = append(tasks, func() { errs[i] = handle(fr.data) })
+		}
+		st := simsync.RunTasks(func(n, cur int) int {
+			if cur >= 0 && !tp.Chance(1, 2) {
+				return cur
+			}
+			return tp.Intn(n)
+		}, tasks)
+		if st.Deadlock {
+			e.Fail("receiver-tasks-deadlock", "concurrent first-contact handling deadlocked")
+		}
+		for _, p := range st.Panics {
+			e.Fail("panic", "a receive task panicked: %v", p)
+		}
+		ok := 0
+		for _, err := range errs {
+			if err == nil {
+				ok++
+			}
+		}
+		e.Ev("first-contact", uint64(nTasks), uint64(ok), uint64(st.Switches))
+		if ok > 1 {
+			e.Fail("signed/dup-accepted/first-contact-by-several-workers",
+				"R held no session for X; a signed frame of X and %d copies of it were handled by %d workers at once (%d task switches): %d of them unsealed", nTasks-1, nTasks, st.Switches, ok)
+		}
+		if ok == 0 {
+			e.Fail("signed/fresh-refused/first-contact-by-several-workers", "none of %d concurrent copies of a fresh signed frame unsealed: %v", nTasks, errs)
+		}
+		if err := handle(fr.data); err == nil {
+			e.Fail("signed/dup-accepted/first-contact-by-several-workers", "a later copy of the signed frame unsealed again")
+		}
+		time.Sleep(2 * time.Millisecond)
+		if err := handle(sealX().data); err != nil {
+			e.Fail("signed/fresh-refused/first-contact-by-several-workers", "a newer signed frame of X is refused after the concurrent first contact: %v", err)
+		}
+		e.Probe("first_contact_by_several_workers")
+	}
 }
 
 func b2u(b bool) uint64 {
